@@ -166,9 +166,12 @@ def build(kind, order, disp, ntomo, shifted, seed):
     pts = sites(kind, seed)
     dv = _disp(kind)
     entry_rows, exit_rows, inputs = [], [], {}
-    tomos = (3.0, 1.0)[:ntomo]
+    # ntomo == -1: a second tomogram that holds exactly ONE particle (a copy of the first row)
+    tomos = (3.0, 1.0) if ntomo == -1 else (3.0, 1.0)[:ntomo]
     for p, s in enumerate(order):
         for t, tomo in enumerate(tomos):
+            if ntomo == -1 and t == 1 and p != 0:
+                continue
             e = pts[s] + (TOMO2_OFFSET if t else 0.0)
             x = e + np.array(dv[disp[p]])
             sid = IDS[p] + 100.0 * t
@@ -198,7 +201,7 @@ def exec_trace(case, obs):
     if hit & {"branch:suffix", "branch:suffix-rejected", "branch:suffix-tail-cut"}:
         obs.fire("branch:suffix-entered")
     # input class of a violation: the threshold pair, except for cases in which add_chain_suffix cut the tail of an existing chain
-    cls = ("tail-cut" if "branch:suffix-tail-cut" in hit else f"max={dmax},min={dmin}") + (",2-tomograms" if ntomo > 1 else "")
+    cls = ("tail-cut" if "branch:suffix-tail-cut" in hit else f"max={dmax},min={dmin}") + (",2-tomograms" if ntomo > 1 else (",singleton-tomogram" if ntomo == -1 else ""))
     df = getattr(res, "df", None)
     ok = df is not None and set(COLS) <= set(df.columns)
     obs.check(ok, SITE, "output-is-particle-table", lambda: f"returned {type(res).__name__}")
@@ -216,7 +219,7 @@ def exec_trace(case, obs):
     for clause in ("chain-within-one-tomogram", "link-distance-in-range", "link-distance-recorded"):
         if clause in seen:
             obs.check(False, SITE, clause, next(d for c, d in problems if c == clause), cls)
-        elif has_link and (ntomo > 1 or clause != "chain-within-one-tomogram"):
+        elif has_link and (ntomo != 1 or clause != "chain-within-one-tomogram"):
             obs.fire(clause)
     obs.nontrivial = has_link
     obs.outcome = tuple(sorted((k[0], tuple(v)) for k, v in chains.items())) + (len(problems),)
@@ -275,6 +278,8 @@ def families(tier, seed):
     ]
     from ..motlgen import with_row_index_kinds
     fams.append(with_row_index_kinds(fams[-1], expect=INV))  # line-shifted x {gapped, reversed}
+    fams.append(fam("line-plus-singleton-tomogram", "line", shapes("line", 6, (2, 3), D2), (T[1], T[4]), -1, False, seed,
+                    ("every-particle-exactly-once", "particle-keeps-its-tomogram", "order-numbers-1..k")))
     if thorough:
         fams.append(fam("line-n5", "line", shapes("line", 6, (5,), D3), (T[4],), 1, False, seed, INV + BR_ALL))
         fams.append(fam("grid-n2-3", "grid", shapes("grid", 9, (2, 3), D3), T, 1, False, seed, INV + BR_SMALL[1:2]))
